@@ -12,7 +12,9 @@ import sys
 import json
 
 from pyvc.asmh import assemble
-from lemmas.corpus import PROGRAMS, REJECTED
+from lemmas.corpus import PROGRAMS, REJECTED, TABBED
+
+ALL = dict(PROGRAMS, **TABBED)
 
 ASM_MODULES = ["cocoasm/instruction.py", "cocoasm/operands.py", "cocoasm/values.py", "cocoasm/statement.py", "cocoasm/program.py",
                "cocoasm/exceptions.py", "cocoasm/operand_type.py"]
@@ -59,7 +61,7 @@ class Frames:
 
     def cells(self, tier):
         out = [{"id": "scan/determinism-sources", "k": "scan"}]
-        names = list(PROGRAMS)
+        names = list(ALL)
         for p in names:
             out.append({"id": "history/%s/after-all" % p, "k": "history", "p": p, "bounded": "P after the whole corpus"})
             out.append({"id": "history/%s/twice" % p, "k": "twice", "p": p, "bounded": "P twice"})
@@ -80,24 +82,37 @@ class Frames:
         if native:
             # natively the baseline comes from a FRESH process: the worker process that replays this cell has usually
             # assembled other programs before, so an in-process baseline may already carry the leaked state
-            first = _fresh_views({p: PROGRAMS[p]}).get(p)
+            first = _fresh_views({p: ALL[p]}).get(p)
             for q in list(PROGRAMS) + list(REJECTED):
                 _native_view(PROGRAMS.get(q) or REJECTED.get(q))
-            again = _native_view(PROGRAMS[p])
+            src = list(ALL[p])
+            again = _native_view(src, copy=False)
+            env.ensure("C17:input-lines-unmodified", src == list(ALL[p]), ("C17",),
+                       lambda: "the caller's list of source lines of %s was modified by assembling it" % p)
             env.ensure("C17:same-output-after-other-programs", first == again, ("C17",),
                        lambda: "output of %s changed after other assemblies" % p)
             return
-        first = _view(assemble(env, PROGRAMS[p], want_listing=True))
+        first = _view(assemble(env, ALL[p], want_listing=True))
         for q in list(PROGRAMS) + list(REJECTED):
             lines = (PROGRAMS.get(q) or REJECTED.get(q))
             assemble(env, lines, want_listing=True)
-        again = _view(assemble(env, PROGRAMS[p], want_listing=True))
+        again = _view(assemble(env, ALL[p], want_listing=True))
         env.ensure("C17:same-output-after-other-programs", first == again, ("C17",), lambda: "output of %s changed after other assemblies" % p)
 
     def k_twice(self, env, cell, native):
         p = cell["p"]
-        a = _view(assemble(env, PROGRAMS[p], want_listing=True))
-        b = _view(assemble(env, PROGRAMS[p], want_listing=True))
+        if native:
+            # the SAME list object is handed to the assembler twice; it must come back untouched (the input is outside the frame)
+            src = list(ALL[p])
+            a = _native_view(src, copy=False)
+            same1 = src == list(ALL[p])
+            b = _native_view(src, copy=False)
+            env.ensure("C17:input-lines-unmodified", same1 and src == list(ALL[p]), ("C17",),
+                       lambda: "the caller's list of source lines of %s was modified by assembling it" % p)
+            env.ensure("C17:same-output-twice", a == b, ("C17",), lambda: "output of %s differs between two runs" % p)
+            return
+        a = _view(assemble(env, ALL[p], want_listing=True))
+        b = _view(assemble(env, ALL[p], want_listing=True))
         env.ensure("C17:same-output-twice", a == b, ("C17",), lambda: "output of %s differs between two runs" % p)
 
     def k_fresh(self, env, cell, native):
@@ -138,14 +153,14 @@ def _fresh_views(programs, seed="0"):
     return out
 
 
-def _native_view(lines):
+def _native_view(lines, copy=True):
     repo = os.environ.get("VERIF_REPO", "/repo")
     if repo not in sys.path:
         sys.path.insert(0, repo)
     from cocoasm.program import Program
     try:
         p = Program()
-        p.process(list(lines))
+        p.process(list(lines) if copy else lines)
         return [p.get_binary_array(), p.get_statements(), p.get_symbol_table()]
     except Exception as e:  # noqa
         return ["raised", type(e).__name__]
